@@ -169,6 +169,9 @@ static inline struct vec_frames vec_frames_make_empty(void)
 }
 
 /* push_back(const vector<uint8_t>& t): the new last frame is a copy of t */
+#ifdef VERIF_FRAMES_HOOK
+void tv_frames_hook(const struct vec_frames *f);
+#endif
 void vec_frames_push_back(struct vec_frames *f, const struct vec_u8 *t)
 __CPROVER_requires(__CPROVER_rw_ok(f, sizeof(*f)) && __CPROVER_r_ok(t, sizeof(*t)) && t->n <= FRAME_CAP && (t->n == 0 || __CPROVER_r_ok(t->d, t->n)))
 __CPROVER_requires(!PRIV_ON || t->n == 0 || __CPROVER_w_ok(f->back.d, t->n))
@@ -180,6 +183,9 @@ __CPROVER_ensures((PRIV_ON && t->n >= 8) ==> (f->back.d[0] == t->d[0] && f->back
                                               f->back.d[4] == t->d[4] && f->back.d[5] == t->d[5] && f->back.d[6] == t->d[6] && f->back.d[7] == t->d[7]))   /* explicit instances for the frame header */
 __CPROVER_assigns(f->n, f->back.n; (PRIV_ON && t->n > 0): __CPROVER_object_upto(f->back.d, t->n))
 {
+#ifdef VERIF_FRAMES_HOOK
+    tv_frames_hook(f);      /* native translation validation only: archive the frame that is about to be replaced */
+#endif
     if (t->n) memcpy(f->back.d, t->d, t->n);
     f->back.n = t->n; f->n += 1;
 }
